@@ -475,6 +475,59 @@ def rule_l(F):
     return res
 
 
+def rule_i(F):
+    """C01.I: a loop's own locals live in numbered frame slots, not "wherever the value stack happens to be": every local
+    the Repeat / ForEach code reads back with read_local_var is stored into its slot first - by write_local_var on the same
+    local, or as an operand of the BeginForEach / ForEach instruction (the VM stores those). Statement cards leave their
+    values on the stack, so the stack height at loop entry is not the slot number: relying on push order reads a stale or
+    foreign slot."""
+    from rules.c10 import arm_labels
+    res = []
+    f = F.fn("compiler::Compiler::process_card")
+    labels = arm_labels(f)
+    seq = []
+    for x in hir_walk(f.hir["body"]):
+        lab = labels.get(id(x))
+        if lab not in ("Repeat", "ForEach"):
+            continue
+        if x.get("k") == "mcall" and x["name"] in ("read_local_var", "write_local_var") and x["args"]:
+            seq.append((lab, x["name"], hir_local_id(hu.strip_all(x["args"][0])), x))
+        elif x.get("k") == "call" and "bytecode::write_to_vec" in hir_callee(x):
+            lid = hir_local_id(hu.strip_all(x["args"][0]))
+            if lid is not None:
+                seq.append((lab, "operand", lid, x))
+    n = 0
+    for lab in ("Repeat", "ForEach"):
+        stored = set()
+        seen = set()
+        for l2, what, lid, x in seq:
+            if l2 != lab or lid is None:
+                continue
+            if what in ("write_local_var", "operand"):
+                stored.add(lid)
+                continue
+            name = None
+            for y in hir_walk(x["args"][0]):
+                if y.get("k") == "path" and y["path"]["res"].get("k") == "local":
+                    name = y["path"]["res"].get("name")
+            key = "C01/I/process_card[%s]/%s-stored-before-read" % (lab, name or "?")
+            if key in seen:
+                continue
+            seen.add(key)
+            n += 1
+            if lid in stored:
+                res.append(ok("C01.I", key, f.loc(x["ln"]), "stored (write_local_var / loop instruction operand) before the loop code reads it"))
+            else:
+                res.append(bad("C01.I", key, f.loc(x["ln"]),
+                               "the %s loop reads its local `%s` with read_local_var but never stores it into its slot first (no "
+                               "write_local_var / loop-instruction operand on it earlier in the arm): the slot is frame offset + index, "
+                               "not the top of the stack, so with any value left on the stack by an earlier statement the loop reads a "
+                               "foreign value as its bound or counter" % (lab, name)))
+    if n < 5:
+        raise AnchorMissing("read_local_var uses in the Repeat/ForEach arms (found %d)" % n)
+    return res
+
+
 def rule_v(F):
     """innermost binding wins: the search over `locals` in resolve_var stops at the first hit of a *reversed* scan whose
     reported index counts from the front (enumerate before rev, or rposition)."""
@@ -483,6 +536,7 @@ def rule_v(F):
 
 
 RULES = [
+    Rule("C01.I", rule_i, 5, "loop locals are stored into their slots before the loop code reads them"),
     Rule("C01.T", rule_t, 36, "operator cards -> like-named instruction -> like operator"),
     Rule("C01.O", rule_o, 10, "operand order of binary operators"),
     Rule("C01.S", rule_s, 12, "scope / sub-index / nested-function brackets are balanced"),
